@@ -91,8 +91,13 @@ class GaussianMixture:
         best_params = None
         best_lower_bound = -np.inf
 
-        if self.random_state is not None:
-            np.random.seed(self.random_state)
+        # Private generator: seeding the global NumPy stream here would reset the
+        # caller's random sequence to a fixed point on every fit.
+        self._rng = (
+            np.random.RandomState(self.random_state)
+            if self.random_state is not None
+            else np.random
+        )
 
         for init in range(self.n_init):
             # Initialize parameters
@@ -141,7 +146,7 @@ class GaussianMixture:
 
         # First center: weighted random sample
         cumsum = np.cumsum(sample_weight)
-        r = np.random.rand() * cumsum[-1]
+        r = self._rng.rand() * cumsum[-1]
         means[0] = X[np.searchsorted(cumsum, r)]
 
         # Remaining centers
@@ -154,7 +159,7 @@ class GaussianMixture:
             probabilities /= np.sum(probabilities)
 
             cumsum = np.cumsum(probabilities)
-            r = np.random.rand() * cumsum[-1]
+            r = self._rng.rand() * cumsum[-1]
             means[k] = X[np.searchsorted(cumsum, r)]
 
         # Initialize responsibilities and compute initial parameters
